@@ -15,7 +15,7 @@ Recs == Data.recs
 VARIABLE i
 RInit == /\ i \in 1..Len(Recs)
          /\ case = <<>> /\ n = 0 /\ out = <<>> /\ err = "none" /\ mreg = <<>> /\ dreg = <<>>
-         /\ flat = <<>> /\ prog = <<>> /\ reads = <<>> /\ cur = <<>> /\ fin = "new"
+         /\ flat = <<>> /\ prog = <<>> /\ reads = <<>> /\ cur = <<>> /\ fin = "new" /\ cok = FALSE
 RNext == UNCHANGED <<vars6, i>>
 
 Verdict6(r) ==
